@@ -1,5 +1,5 @@
 #!/usr/bin/env python3
-"""tools/benign_matrix.py [filter] - applies every behaviour-preserving refactoring under /verif/benign to a scratch
+"""tools/benign_matrix.py [filter] - applies every behaviour-preserving refactoring under /verif/benign and /verif/benign2 to a scratch
 copy of /repo HEAD (outside /repo and /verif, removed afterwards), runs every registered quick check against it and
 writes /verif/benign/MATRIX.json: for each refactoring the checks that did not exit 0 (expected: none, or the
 accepted 'analysis broken' cases listed in DESIGN.md section 14).  Exit status 1 if any check reports a violation."""
@@ -45,11 +45,15 @@ def run_one(item):
 def main():
     items = []
     base = os.path.join(VERIF, "benign")
-    for p in sorted(os.listdir(base)):
-        for r in ("r1", "r2", "r3"):
-            f = os.path.join(base, p, r + ".diff")
-            if os.path.exists(f):
-                items.append((p + "/" + r, f))
+    for rnd, dname in (("", "benign"), ("2:", "benign2")):
+        bd = os.path.join(VERIF, dname)
+        if not os.path.isdir(bd):
+            continue
+        for p in sorted(os.listdir(bd)):
+            for r in ("r1", "r2", "r3"):
+                f = os.path.join(bd, p, r + ".diff")
+                if os.path.exists(f):
+                    items.append((rnd + p + "/" + r, f))
     if len(sys.argv) > 1:
         items = [x for x in items if sys.argv[1] in x[0]]
     with ThreadPoolExecutor(max_workers=int(os.environ.get("BENIGN_JOBS", "6"))) as ex:
